@@ -169,6 +169,8 @@ def build_world(envmask, filemask, style, store, defaults_exist, old_sock):
     for tag in ['env'] + [f'f{i}' for i in range(4)]:
         for which in ('pib', 'tpm'):
             dirs.add(f'/data/{which}-{tag}')
+            dirs.add(f'/data/{which}-{tag}/ndnsec-key-file')      # (a directory of that name inside a store location means nothing)
+            dirs.add(f'/data/{which}-{tag}/pib.db')
             for odd in ODD.values():
                 dirs.add(f'/data/{which}-{tag}{odd}')
             dirs.add(f'relw-{which}-{tag}')                 # exists relative to the working directory, as given
@@ -271,6 +273,7 @@ def conf_worlds():
 # -- default_face ---------------------------------------------------------------------------------------------
 FACE_URIS = [
     ('unix:///run/nfd/nfd.sock', ('unix', '/run/nfd/nfd.sock')), ('unix:/run/nfd/nfd.sock', ('unix', '/run/nfd/nfd.sock')), ('unix:///tmp/x.sock', ('unix', '/tmp/x.sock')),
+    ('unix:///tmp/NDN-Runtime/User_A/Nfd.sock', ('unix', '/tmp/NDN-Runtime/User_A/Nfd.sock')),
     ('tcp://127.0.0.1', ('tcp', '127.0.0.1', 6363)), ('tcp://127.0.0.1:7000', ('tcp', '127.0.0.1', 7000)),
     ('tcp4://example.org:6363', ('tcp', 'example.org', 6363)), ('tcp4://example.org', ('tcp', 'example.org', 6363)),
     ('tcp6://[::1]:6363', ('tcp', '::1', 6363)), ('tcp6://[::1]', ('tcp', '::1', 6363)), ('tcp6://[2001:db8::2]:7000', ('tcp', '2001:db8::2', 7000)),
